@@ -993,7 +993,7 @@ theorem caller_enabled {s : State} (hinv : Inv s) {j : Nat} (hj : j < s.nT) (hnd
   have hneeds := hinv.needs j
   cases hpc : (s.t j).pc with
   | peek =>
-    refine ⟨.peek, ?_⟩
+    refine ⟨.peek false, ?_⟩
     simp only [step?, stepRaw, stepT, hj, if_true, hpc, Option.isSome_map]
     (repeat' split) <;> rfl
   | contains =>
@@ -1006,7 +1006,7 @@ theorem caller_enabled {s : State} (hinv : Inv s) {j : Nat} (hj : j < s.nT) (hnd
     (repeat' split) <;> rfl
   | loadActive =>
     obtain ⟨i, hi⟩ := Option.isSome_iff_exists.1 (hneeds (by simp [hpc])).1
-    refine ⟨.loadActive, ?_⟩
+    refine ⟨.loadActive false, ?_⟩
     simp only [step?, stepRaw, stepT, hj, if_true, hpc, hi, Option.isSome_map]
     (repeat' split) <;> rfl
   | lockCheck =>
@@ -1022,7 +1022,7 @@ theorem caller_enabled {s : State} (hinv : Inv s) {j : Nat} (hj : j < s.nT) (hnd
     simp [this]
   | reload =>
     obtain ⟨i, hi⟩ := Option.isSome_iff_exists.1 (hneeds (by simp [hpc])).1
-    refine ⟨.reload, ?_⟩
+    refine ⟨.reload false, ?_⟩
     simp only [step?, stepRaw, stepT, hj, if_true, hpc, hi, Option.isSome_map]
     (repeat' split) <;> rfl
   | readErr =>
